@@ -503,7 +503,7 @@ def run_chain(scn, *, faults=(), region=None, solver_fail_at=None, n_iter=None, 
             outcome["iters"] += 1
             faulted = len(ctx.fired) > fired_before or region is not None
             if judge_c12 and before_finite:
-                judge_transition(ctx, mon, before, before_finite, new_state, stats, scn)
+                judge_transition(ctx, mon, before, before_finite, new_state, stats, scn, state)
             elif not before_finite:
                 ctx.count("unjudged_nonfinite_input")
             for k in ("convergence_error", "non_reversible_step", "diverging"):
@@ -523,7 +523,7 @@ def run_chain(scn, *, faults=(), region=None, solver_fail_at=None, n_iter=None, 
     return ctx, outcome
 
 
-def judge_transition(ctx, mon, before, before_finite, new_state, stats, scn):
+def judge_transition(ctx, mon, before, before_finite, new_state, stats, scn, input_state=None):
     """C12 items 2-4 for one returned transition."""
     metrop = scn["transition"]["type"] in ("static", "random")
     pos_ok = bool(np.all(np.isfinite(new_state.pos)) and np.all(np.isfinite(new_state.mom)))
@@ -545,6 +545,31 @@ def judge_transition(ctx, mon, before, before_finite, new_state, stats, scn):
         if hval is not None and (math.isnan(hval) or hval == math.inf):
             ctx.violations.append(violation("moved-to-invalid-candidate", f"moved-to-invalid-candidate:{scn['transition']['type']}",
                                             f"chain moved to a state whose Hamiltonian evaluated to {hval}"))
+    h_in = None
+    if input_state is not None:
+        with paused(ctx):
+            try:
+                h_in = float(mon.system.h(input_state))  # as cached by the transition (NaN if the fault hit it)
+            except Exception:  # noqa: BLE001
+                h_in = None
+    # (a model that is NaN/inf at the state the chain already sits in is outside the property)
+    if not metrop and mon.outputs and h_in is not None and math.isfinite(h_in):
+        # dynamic transitions: a trajectory state whose Hamiltonian evaluated to NaN/+inf is a divergence:
+        # it must be recorded, zero the acceptance statistic and end the trajectory (no step after it)
+        with paused(ctx):
+            for idx, o in enumerate(mon.outputs):
+                try:
+                    ho = float(mon.system.h(o))  # value cached in the state by the transition itself
+                except Exception:  # noqa: BLE001
+                    continue
+                if math.isnan(ho) or ho == math.inf:
+                    if not stats.get("diverging"):
+                        ctx.violations.append(violation("divergence-not-recorded", f"divergence-not-recorded:{scn['transition']['type']}",
+                                                        f"trajectory state {idx + 1} of {len(mon.outputs)} has Hamiltonian {ho} but the diverging statistic is {stats.get('diverging')}"))
+                    elif idx != len(mon.outputs) - 1:
+                        ctx.violations.append(violation("continued-after-divergence", f"continued-after-divergence:{scn['transition']['type']}",
+                                                        f"{len(mon.outputs) - idx - 1} integrator steps were taken after the trajectory state whose Hamiltonian evaluated to {ho}"))
+                    break
     if stats.get("n_step") != len(mon.outputs):
         ctx.violations.append(violation("n-step", f"n-step:{scn['transition']['type']}",
                                         f"transition reports n_step={stats.get('n_step')} but {len(mon.outputs)} integrator steps succeeded (errors: {mon.errors})"))
